@@ -20,11 +20,12 @@ def reset():
 
 
 def set_size(size: int):
-    for cached in _cached:
-        wrapped = cached.__wrapped__
-        setattr(
-            sys.modules[wrapped.__module__], wrapped.__name__, lru_cache(size)(wrapped)
-        )
+    # dict to keep only one (ordered) occurrence of functions already resized
+    for wrapped in {cached.__wrapped__: None for cached in _cached}:
+        resized = lru_cache(size)(wrapped)
+        setattr(sys.modules[wrapped.__module__], wrapped.__name__, resized)
+        # previous caches can still be referenced by modules having imported them
+        _cached.append(resized)
 
 
 K = TypeVar("K")
